@@ -314,6 +314,9 @@ def replace_at(e, path, new):
 def features(e, acc=None):
     acc = acc if acc is not None else {}
     acc[e[0]] = acc.get(e[0], 0) + 1
+    if e[0] == "seq" and len(e[2]) == 1:
+        k = "seq_single_trailing" if e[1] else "seq_single"
+        acc[k] = acc.get(k, 0) + 1
     if e[0] == "for":
         for c in e[1]:
             acc["cl_" + c[0]] = acc.get("cl_" + c[0], 0) + 1
@@ -433,11 +436,20 @@ class Gen:
             return V(r.choice(INT_NAMES + FN_NAMES))   # possibly undeclared
         return self.leaf(r.choice("iil"))
 
+    def single(self, e, p=0.12):
+        """sometimes a one-statement block: (e) or (e;) - the latter yields null"""
+        r = self.r
+        if r.random() < p:
+            return ("seq", 1 if r.random() < 0.7 else 0, [e])
+        return e
+
     def expr(self, kind="a", d=0):
         r = self.r
         self.spend()
         if self.budget <= 0 or d >= self.maxdepth:
-            return self.leaf(kind)
+            return self.single(self.leaf(kind), 0.03 if kind == "a" else 0.0)
+        if r.random() < (0.06 if kind == "a" else 0.015):
+            return ("seq", 1 if (kind == "a" and r.random() < 0.7) or r.random() < 0.3 else 0, [self.expr(kind, d + 1)])
         c = r.random()
         if kind == "a":
             kind = r.choice("iiillfa")
@@ -493,7 +505,7 @@ class Gen:
             return self.block("a", d)
         if c < 0.85:
             return self.loop_expr(d)
-        return ("eval", self.expr("a", d + 1))
+        return ("eval", self.single(self.expr("a", d + 1), 0.35))
 
     def effect_expr(self, d):
         """an expression whose evaluation is visible (print / assignment / throw)"""
@@ -552,6 +564,9 @@ class Gen:
         self.in_fn += 1
         loops, self.loops = self.loops, self.loops if r.random() < 0.3 else 0
         body, rk = self.in_scope(decls, lambda: self.fn_body(d + 1))
+        if r.random() < 0.08:
+            tr = 1 if r.random() < 0.7 else 0
+            body, rk = ("seq", tr, [body]), ("a" if tr else rk)
         self.loops = loops
         self.in_fn -= 1
         self.last_ret = rk
@@ -605,7 +620,7 @@ class Gen:
             if r.random() < 0.1:
                 args.append(("splat", self.expr("l", d + 1)))
             else:
-                args.append(self.expr(r.choice("iiiaf"), d + 1))
+                args.append(self.single(self.expr(r.choice("iiiaf"), d + 1), 0.06))
         e = ("call", callee, args)
         if r.random() < 0.12:            # call the result again: f()()
             e = ("call", e, [self.expr("i", d + 1)] if r.random() < 0.5 else [])
@@ -844,10 +859,13 @@ class Gen:
             return self.loop_expr(d)
         if c < 0.66:
             cond = self.expr("i", d + 1)
+            if r.random() < 0.25:      # the if as a value, branches possibly one-statement blocks
+                return P("print", ("if", cond, self.single(self.expr("i", d + 1), 0.4), self.single(self.expr("i", d + 1), 0.4)))
             return ("if", cond, self.stmt(d + 1), self.stmt(d + 1) if r.random() < 0.4 else None)
         if c < 0.70:
-            h = self.in_scope({"e": "a"}, lambda: self.stmt(d + 1) if r.random() < 0.5 else self.expr("a", d + 1))
-            return ("try", self.risky(d + 1), "e", h)
+            h = self.in_scope({"e": "a"}, lambda: self.stmt(d + 1) if r.random() < 0.5 else self.single(self.expr("a", d + 1), 0.2))
+            t = ("try", self.single(self.risky(d + 1), 0.15), "e", h)
+            return P("print", t) if r.random() < 0.3 else t
         if c < 0.74:
             return self.selective_try(d)
         if c < 0.78:
@@ -967,7 +985,7 @@ def gen_program(rng, maxnodes=25, maxdepth=5):
     for _ in range(50):
         g = Gen(rng, rng.randint(8, maxnodes), maxdepth)
         ss = [g.stmt(1) for _ in range(rng.randint(1, 4))]
-        ss.append(g.expr("a", 1))
+        ss.append(g.single(g.expr("a", 1), 0.08))
         e = SEQ(*ss)
         if size(e) <= maxnodes * 3 and depth(e) <= maxdepth + 6:
             return e
@@ -987,7 +1005,7 @@ def small_programs(maxsize):
             return out
         for e in ex(n - 1):
             out += [("decl", "x", e), ("asg", "x", e), ("decl", "f", ("lam", [], e)), ("throw", e), ("break", 0, e),
-                    ("call", e, []), ("lam", [("p", "x")], e), ("ret", e)]
+                    ("call", e, []), ("lam", [("p", "x")], e), ("ret", e), ("seq", 1, [e]), ("seq", 0, [e])]
         for a in range(1, n - 1):
             b = n - 1 - a
             for ea in ex(a):
@@ -1001,6 +1019,12 @@ def small_programs(maxsize):
     for n in range(1, maxsize + 1):
         res += ex(n)
     return res
+
+
+def small_level(n):
+    """exactly-n-node programs of the same reduced vocabulary"""
+    lo = len(small_programs(n - 1))
+    return small_programs(n)[lo:]
 
 
 # ----------------------------------------------------------------------------- running and comparing
@@ -1158,7 +1182,9 @@ def run(ctx):
         corpus.append(tuplify(json.loads(f.read_text())["ast"]))
     n = ctx.n(1500, 40000)
     progs = corpus + [gen_program(rng) for _ in range(n)]
-    small = small_programs(ctx.n(4, 5))
+    small = small_programs(4)
+    if not ctx.quick():       # level 5 has ~626 000 programs: a seeded sample of 150 000 of them
+        small = small + rng.sample(small_level(5), 150000)
     rows = []
     for i in range(0, len(progs), 4000):
         rows += evaluate(progs[i:i + 4000], runner)
@@ -1190,7 +1216,7 @@ def run(ctx):
         "distinct_nontrivial": len(distinct),
         "rule": "generated programs (grammar-based, <= ~25 generator nodes, nesting <= 5 below idioms) on which both sides finished inside the vocabulary and agreed; "
                 "non-trivial = contains a lambda, a loop or a try; distinct by program text. The small-program sweep enumerates every "
-                f"program of <= {ctx.n(4, 5)} nodes over a reduced vocabulary (x, f, 1, :=, =, lambda, call, seq, while, and, try, for-yield, for-do, try with the selective patterns `1` and `2`, if, +, throw, break, break break, continue, break continue, return).",
+                f"program of <= 4 nodes{'' if ctx.quick() else ' plus a seeded sample of 150 000 of the 626 304 five-node programs'} over a reduced vocabulary (x, f, 1, :=, =, lambda, call, one-statement blocks (e) and (e;), seq, while, and, try, for-yield, for-do, try with the selective patterns `1` and `2`, if, +, throw, break, break break, continue, break continue, return).",
         "verdicts": verdicts,
         "constructs_in_agreeing_programs": dict(sorted(feats_total.items())),
         "size_histogram_nodes": sizes,
